@@ -17,7 +17,7 @@ Section EcdsaSpec.
   Variable x_canon : Z -> Prop.      (* "x is a reduced field element" (0 <= x < p on a concrete curve) *)
 
   (* (pt, add, neg, O) is an abelian group; smul is its Z-action; every element is killed by n
-     (a group of order n); coords gives affine coordinates, None exactly for... (only O -> None is used);
+     (a group of order n); coords gives affine coordinates, None exactly for O;
      negation keeps the abscissa. *)
   Record group_laws : Prop := {
     gl_assoc   : forall P Q R, add P (add Q R) = add (add P Q) R;
@@ -29,6 +29,7 @@ Section EcdsaSpec.
     gl_smul_mul: forall a b P, smul (a * b) P = smul a (smul b P);
     gl_order   : forall P, smul n P = O;
     gl_coords_O   : coords O = None;
+    gl_coords_None: forall P, coords P = None -> P = O;
     gl_coords_pos : forall P x y, coords P = Some (x, y) -> 0 <= x /\ 0 <= y;
     gl_coords_neg : forall P x y, coords P = Some (x, y) -> exists y', coords (neg P) = Some (x, y')
   }.
@@ -40,6 +41,7 @@ Section EcdsaSpec.
     ll_sound    : forall x P0 P1, lift_x x = Some (P0, P1) -> x_canon x ->
                   (exists y0, coords P0 = Some (x, y0) /\ Z.odd y0 = false) /\
                   (exists y1, coords P1 = Some (x, y1) /\ Z.odd y1 = true);
+    ll_range    : forall P x y, coords P = Some (x, y) -> x_canon x;
     ll_complete : forall P x y, coords P = Some (x, y) ->
                   exists P0 P1, lift_x x = Some (P0, P1) /\ P = (if Z.odd y then P1 else P0)
   }.
